@@ -26,7 +26,7 @@ add("C03", "pbt", "property-based testing (proptest): independent encoder with p
     "Trusts refmodel's writer to emit only encodings erl_ext_dist permits (self-checked against refmodel's reader). Known open finding C03-F1 (maps with ==-equal keys).",
     "DESIGN.md §7 C03")
 add("C05", "pbt", "exhaustive enumeration of all chunkings of short streams + property-based testing over random streams through a custom chunking/Pending AsyncRead and AsyncWrite",
-    "Every way of cutting short framed streams into reads (all 2^(n-1)), and random message sequences x chunk patterns x Pending patterns x EOF positions x over-cap lengths, driven by a manual poll loop; frames out must equal messages in, the streaming writer must equal the one-shot framer, over-cap lengths must be refused without a large allocation (scoped counting allocator).",
+    "Every way of cutting short framed streams into reads (all 2^(n-1)), and random message sequences x chunk patterns x Pending patterns x EOF positions x over-cap lengths, with framer and deframer built directly in the mode or switched to it by set_mode, driven by a manual poll loop; frames out must equal messages in, the streaming writer must equal the one-shot framer, over-cap lengths must be refused without a large allocation (scoped counting allocator).",
     "No sockets or timers involved; the node's second copy of the read loop (receive_message_from_read_half) is exercised over TCP by C06/C19.",
     "DESIGN.md §7 C05")
 add("C08", "pbt", "property-based testing over the tag x arity grid + table-driven differential against the protocol's control-message table (independent copy)",
@@ -38,7 +38,7 @@ add("C09", "pbt", "exhaustive enumeration of all n! arrival orders (n<=5/7) x du
     "Known open findings C09-F1 (ascending-id concatenation, pinned by the repo's tests) and C09-F2 (>100000 fragments never complete); every other clause is still decided on the full domain.",
     "DESIGN.md §7 C09")
 add("C10", "pbt", "property-based testing: independent encoder places identifiers (plain / LOCAL_EXT, every inner tag) in every context; byte spans located by an independent reader; generated conversion sequences",
-    "Carrier terms with identifiers in every context are decoded, put through generated sequences of clone / owned->zero-copy->owned / wire trip / moves into containers, and re-encoded; identifier byte spans (found by an independent reader) must be byte-identical - through encode, through the distribution-header encoder, and for identifiers received in a distribution-header frame - and the same logical identifier in plain and LOCAL_EXT form (different hashes, differently spelled node atom) must be ==, hash alike and compare Equal.",
+    "Carrier terms with identifiers in every context are decoded, put through generated sequences of clone / owned->zero-copy->owned / wire trip / moves into containers, and re-encoded; identifier byte spans (found by an independent reader) must be byte-identical - through encode, through the distribution-header encoder, and for identifiers received in a distribution-header frame (a map whose keys the library's order does not order totally may come out reordered: then the value and every identifier's bytes must be unchanged) - and the same logical identifier in plain and LOCAL_EXT form (different hashes, differently spelled node atom) must be ==, hash alike and compare Equal.",
     "Byte identity is required for LOCAL_EXT and for plain identifiers in the form the library reconstructs from fields; a plain identifier received in another equivalent tag must keep its logical fields.",
     "DESIGN.md §7 C10")
 add("C13", "pbt", "differential testing owned vs zero-copy decoder over valid encodings, every truncation of a sample, mutations and raw bytes (proptest + exhaustive truncations)",
@@ -50,7 +50,7 @@ add("C14", "pbt", "exhaustive sweep of atom counts 0..258 x long-atom x payload 
     "Trusts refmodel::dist as a reading of the distribution header layout.",
     "DESIGN.md §7 C14")
 add("C15", "pbt", "property-based round-trip testing over a family of 38 Rust types (serde derive + derive(ElixirStruct)), via term and via bytes",
-    "from_term(to_term(v)) == v and from_bytes(to_bytes(v)) == v (floats by bits) for generated values over full integer ranges, chars incl. non-BMP, strings, options, tuples, sequences, maps with several key types, all struct and enum shapes and nestings; the bytes must also be readable by an independent ETF reader.",
+    "from_term(to_term(v)) == v and from_bytes(to_bytes(v)) == v (floats by bits) for generated values over full integer ranges, floats (infinities: round trip or an error), sequences and strings of 65534..200000 elements, chars incl. non-BMP, strings, options, tuples, sequences, maps with several key types, all struct and enum shapes and nestings; the bytes must also be readable by an independent ETF reader.",
     "Excludes the shapes the statement excludes (nested options, Option<()>, NaN).",
     "DESIGN.md §7 C15")
 add("C20", "pbt", "property-based testing: i128 reference model for ranges; round trip (memory + wire) and wrong-shape mutation of every wrapper; proplist/map metamorphic relations",
@@ -59,7 +59,7 @@ add("C20", "pbt", "property-based testing: i128 reference model for ranges; roun
     "DESIGN.md §7 C20")
 
 add("C02", "pbt", "adversarial input generation + fuzz-style mutation, executed in an isolated worker process (2 MiB-stack threads, counting allocator); proptest shrinking in the parent",
-    "Count bombs for every length-bearing tag, nesting to depth 10^6 through every container tag, compressed sections that inflate to less/exactly/10^7x more than declared, every truncation of sampled encodings, mutations and raw bytes are run through all nine decoding entry points; each must return, the worker must stay alive (no abort / stack overflow), and peak requested memory must stay within 1 MiB + 256 x (input + legitimately inflated bytes).",
+    "Count bombs for every length-bearing tag, thousands of two-byte atom-cache references to long atoms of the frame's own distribution header, nesting to depth 10^6 through every container tag, compressed sections that inflate to less/exactly/10^7x more than declared, every truncation of sampled encodings, mutations and raw bytes are run through all nine decoding entry points; each must return, the worker must stay alive (no abort / stack overflow), and peak requested memory must stay within 1 MiB + 256 x (input + legitimately inflated bytes).",
     "2 MiB stack = tokio default worker; harness built with opt-level 2; allocation bound constants justified in DESIGN.md.",
     "DESIGN.md §7 C02")
 
@@ -73,23 +73,23 @@ add("C04", "netbed", "stateful property-based testing of the handshake API again
     "Own MD5 and handshake layouts from the OTP docs; virtual time moves only when the script advances it (auto-advance inhibited), real-time watchdog => inconclusive.",
     "DESIGN.md §7 C04")
 add("C06", "netbed", "model-based property testing: scripts from a conforming sender model (pass-through / distribution header with persistent atom cache / fragments / ticks / junk) over a real loopback socket with generated TCP segmentation",
-    "Generated scripts of valid messages of every control kind in every wire form, interleaved with ticks and malformed frames, are written in arbitrary segments; Connection::receive_message and receive_message_from_read_half must return each valid message exactly once, in order, unchanged, with at most one error per bad frame and no panic.",
+    "Generated scripts of valid messages of every control kind in every wire form, interleaved with ticks and malformed frames, are written in arbitrary segments; Connection::receive_message and receive_message_from_read_half must return each valid message exactly once, in order, unchanged, with at most one error per bad frame and no panic; a frame the peer started and abandoned by closing the connection must not be returned as a message.",
     "Known open finding C06-F1 (messages in >= 2 fragments, root cause C09-F1); junk never poses as a header frame of the connection.",
     "DESIGN.md §7 C06")
 add("C07", "netbed", "property-based testing with an independent protocol reader on the peer side + generated task schedules at instrumented yield points (concurrent senders through one Node)",
-    "Sequences of the six send-side operations with generated arguments in both framing modes (incl. asymmetric flag offers, unencodable operations, never-connected and closed connections) are read back by an independent deframer and reader and compared with the protocol's control tuple; 1..5 tasks issue operations through one Node under generated schedules that yield between the partial writes of a frame: frames must not interleave and per-task order must hold.",
+    "Sequences of the six send-side operations with generated arguments in both framing modes (incl. asymmetric flag offers, payloads with 248..320 distinct atoms around the header's limit of 255, unencodable operations, never-connected and closed connections) are read back by an independent deframer and reader and compared with the protocol's control tuple; 1..5 tasks issue operations through one Node under generated schedules that yield between the partial writes of a frame: frames must not interleave and per-task order must hold.",
     "Task interleaving is controlled at sched_point hooks and real I/O waits only.",
     "DESIGN.md §7 C07")
 add("C17", "netbed", "stateful property-based testing: generated waves of concurrent remote calls against a scripted peer (replies in generated order, late / duplicate / stray replies, silence, peer close before or during a wave) + generated task schedules, virtual clock",
-    "1..3 waves of 1..6 concurrent rpc_call_raw_with_timeout calls through one Node, each with its own virtual timeout and a unique argument; the peer answers at once, late, never, twice, or again during the next wave, in generated order, sends replies to pids that never had a call, and closes before or during the last wave. Caller identifiers are optionally re-used one allocator round later; a second campaign sends a request larger than the socket buffers to a peer that reads only after the call's timeout has passed (the frame must arrive whole). A call must return its own reply or a timeout / cancellation / connection error, never another call's reply; a reply consumed before the timeout must not be reported as a timeout; when all calls have returned the outstanding-call table must be empty (hook accessor).",
-    "Virtual time moves only when the script advances it; task interleaving is controlled at sched_point hooks (registration / wait / lookup steps).",
+    "1..3 waves of 1..6 concurrent rpc_call_raw_with_timeout calls through one Node, each with its own virtual timeout and a unique argument; the peer answers at once, late, never, twice, or again during the next wave, in generated order, sends replies to pids that never had a call, and closes before or during the last wave. A single caller can be held at a yield point right after its request was written until the peer's reply has been routed (a reply must find its call registered). Caller identifiers are optionally re-used one allocator round later; the stalled-peer campaign also lets the peer close, reset or half-close while the request is stuck in the full socket (calls return / the node stays live and deregisters the peer); a second campaign sends a request larger than the socket buffers to a peer that reads only after the call's timeout has passed (the frame must arrive whole). A call must return its own reply or a timeout / cancellation / connection error, never another call's reply; a reply consumed before the timeout must not be reported as a timeout; when all calls have returned the outstanding-call table must be empty (hook accessor).",
+    "Virtual time moves only when the script advances it; task interleaving is controlled at sched_point hooks (registration / request-written / wait / lookup steps).",
     "DESIGN.md §7 C17")
 add("C18", "netbed", "model-based stateful property testing (proptest histories of spawn/register/link/monitor/send/failure/$gen_call against a process-table model) under generated yield schedules + unshrunk parallel stress on a multi-threaded runtime",
     "Histories over recorder processes, a GenServerProcess and a GenEventManager on a started Node are interpreted against a model of liveness, names, links and monitors; every handler log must equal the model (each accepted message once and in sender order, exactly one Exit/MonitorExit per surviving linked/monitoring process with the right pid and reference, none after unlink/demonitor), dead pids and their names stop resolving and names can be re-registered, a held name cannot be taken, whereis/registered/process_count agree, each $gen_call is answered once with the caller's reference. A second campaign asks the same questions with real parallelism (4 workers): parallel senders, parallel registration of one free name, simultaneous failures.",
     "Deterministic interleavings are controlled at sched_point hooks; sends racing with a failure and links created while the target dies are not generated (the statement gives no outcome for them). The parallel campaign is not schedule-pinned: its failing inputs are saved unshrunk and replayed 40 times.",
     "DESIGN.md §7 C18")
 add("C19", "netbed", "property-based testing of inbound scripts from a scripted peer (valid routes, unroutable targets, ignored kinds, malformed frames, ticks, silence, bursts into a busy mailbox, fatal transport events) against a routing model",
-    "Generated inbound scripts over a real loopback socket: every SEND/REG_SEND/EXIT/MONITOR_P_EXIT for a live process must reach exactly that process once and in order, unroutable or malformed input must change nothing and must not stop the receiver (a marker message after each bad item must still arrive), quiet periods with peer ticks must not drop the connection, and transport-fatal events must remove the connection and let calls fail.",
+    "Generated inbound scripts over a real loopback socket: every SEND/REG_SEND/EXIT/MONITOR_P_EXIT for a live process must reach exactly that process once and in order, unroutable or malformed input - single bad frames and runs of 17..96 of them - must change nothing and must not stop the receiver (a marker message after each bad item must still arrive), quiet periods with peer ticks must not drop the connection, and transport-fatal events must remove the connection and let calls fail.",
     "Inbound frames in pass-through form (header-mode decoding is C06/C14's subject).",
     "DESIGN.md §7 C19")
 
